@@ -1,6 +1,316 @@
-import Rv.Model.AccessorsShape
-import Rv.Spec.Shapes
+/-
+C16 — typed accessors return exactly what the reply encodes.
+
+`Rv/Spec/Shapes.lean` turns structured data into the reply a server sends for it
+(RESP2 and RESP3); the theorems say that the accessor model (Rv/Model/Accessors*.lean,
+tied to message.go by the `accessors`/`shapes` suites) gives the data back, for ALL
+data. Float fields are compared as the text handed to strconv (`F.str s`), under the
+hypothesis that strconv accepts that text (`fp.ok s`); float parsing itself is trusted.
+Go maps are modelled by their assignment log; `lookupLast` is the map.
+-/
+import Rv.Lemmas.AccShape
 namespace Rv.C16
-open Rv Rv.Acc
-theorem placeholder_partial : True := trivial
+open Rv Rv.Acc Rv.Shapes
+
+/-! ## sorted-set scores -/
+
+/-- ZRANGE … WITHSCORES etc.: flat RESP2 `[member, score, …]` and nested RESP3 `[[member, score], …]`
+    give the same list of (member, score) in order. -/
+theorem zscores_both (fp : FP) (p : Proto) (d : Scores) (h : ∀ ms ∈ d, fp.ok ms.2 = true) :
+    asZScores fp (zscores p d) = .ok (zscoresExpect d) := by
+  cases p
+  · exact asZScores_r2 fp d h
+  · exact asZScores_nested fp .r3 d h
+
+theorem zscore_single (fp : FP) (p : Proto) (ms : Bytes × Bytes) (h : fp.ok ms.2 = true) :
+    asZScore fp (zscore p ms) = .ok ⟨ms.1, .str ms.2⟩ := by
+  simp [asZScore, zscore, toZScore_pair fp p ms.1 ms.2 h]
+
+theorem zmpop_both (fp : FP) (p : Proto) (key : Bytes) (d : Scores) (h : ∀ ms ∈ d, fp.ok ms.2 = true) :
+    asZMPop fp (zmpop p key d) = .ok (key, zscoresExpect d) := by
+  simp [asZMPop, popWith, zmpop, idx, asZScores_nested fp p d h]
+
+/-! ## streams -/
+
+/-- XRANGE: every entry, in order; the field map's assignment log is the field list in order. -/
+theorem xrange_entries (es : List Entry) : asXRange (xrange es) = .ok (xrangeExpect es) := asXRange_xrange es
+
+/-- XRANGE slices: every field/value pair in order, duplicates kept. -/
+theorem xrange_slices (es : List Entry) : asXRangeSlices (xrange es) = .ok (xrangeSlicesExpect es) :=
+  asXRangeSlices_xrange es
+
+/-- XREAD: RESP2 array-of-pairs and RESP3 map give the same streams. -/
+theorem xread_both (p : Proto) (d : List (Bytes × List Entry)) : asXRead (xread p d) = .ok (xreadExpect d) := by
+  cases p
+  · exact xreadWith_r2 asXRange xrangeExpect asXRange_xrange d
+  · exact xreadWith_r3 asXRange xrangeExpect asXRange_xrange d
+
+theorem xread_slices_both (p : Proto) (d : List (Bytes × List Entry)) :
+    asXReadSlices (xread p d) = .ok (xreadSlicesExpect d) := by
+  cases p
+  · exact xreadWith_r2 asXRangeSlices xrangeSlicesExpect asXRangeSlices_xrange d
+  · exact xreadWith_r3 asXRangeSlices xrangeSlicesExpect asXRangeSlices_xrange d
+
+/-! ## SCAN, LMPOP -/
+
+/-- SCAN: the decimal cursor text is parsed exactly (any uint64), elements in order. -/
+theorem scan_entry (cursor : Nat) (hc : cursor < 18446744073709551616) (elems : List Bytes) :
+    asScanEntry (scan cursor elems) = .ok ⟨elems, cursor⟩ := by
+  have hu : asUint64 (blob (Spec.digits cursor)) = .ok cursor := by
+    simp [asUint64, tBlob, tInt, liftNum, parseUint_digits cursor hc]
+  have hs : asStrSlice (arr (elems.map blob)) = .ok elems := by
+    simp [asStrSlice, List.map_map, Function.comp_def]
+  simp [asScanEntry, scan, idx, hu, hs]
+
+theorem lmpop_values (key : Bytes) (elems : List Bytes) : asLMPop (lmpop key elems) = .ok (key, elems) := by
+  have hs : asStrSlice (arr (elems.map blob)) = .ok elems := by
+    simp [asStrSlice, List.map_map, Function.comp_def]
+  simp [asLMPop, popWith, lmpop, idx, hs]
+
+/-! ## FT.SEARCH -/
+
+/-- RESP3 (map) replies: faithful for every combination of scores / content, no precondition. -/
+theorem ftsearch_resp3 (fp : FP) (ws wa : Bool) (total : Int) (ds : List SDoc) :
+    asFtSearch fp (ftSearch .r3 ws wa total ds) = .ok (ftSearchExpect ws wa total ds) :=
+  asFtSearch_r3 fp ws wa total ds
+
+/-- RESP2 (flat) replies: faithful exactly under `ftFaithful2` (see Rv/Spec/Shapes.lean): the
+    detection looks at elements 1–3, so the first key must not look like a float when scores
+    are present, and keys 2/3 must be non-empty / not float-after-non-float otherwise. -/
+theorem ftsearch_resp2 (fp : FP) (ws wa : Bool) (total : Int) (ds : List SDoc) (h : ftFaithful2 fp ws wa ds) :
+    asFtSearch fp (ftSearch .r2 ws wa total ds) = .ok (ftSearchExpect ws wa total ds) :=
+  asFtSearch_r2 fp ws wa total ds h
+
+/-- content without scores needs no precondition at all -/
+theorem ftsearch_resp2_content (fp : FP) (total : Int) (ds : List SDoc) :
+    asFtSearch fp (ftSearch .r2 false true total ds) = .ok (ftSearchExpect false true total ds) :=
+  asFtSearch_r2 fp false true total ds (by simp [ftFaithful2])
+
+/-- non-vacuity: an ordinary WITHSCORES reply satisfies the precondition -/
+example : ftFaithful2 ⟨fun s => s = [48, 46, 53]⟩ true true [⟨[100, 111, 99], [48, 46, 53], []⟩] := by
+  simp [ftFaithful2]
+
+/-- Outside the precondition the accessor is NOT faithful: `FT.SEARCH … WITHSCORES NOCONTENT`
+    returning the document key "1" with score "0.5" is read as two documents "1" and "0.5"
+    without scores (the key parses as a float, so WITHSCORES is not detected). -/
+theorem ftsearch_resp2_outside_precondition :
+    let fp : FP := ⟨fun _ => true⟩
+    let ds : List SDoc := [⟨[49], [48, 46, 53], []⟩]
+    ¬ ftFaithful2 fp true false ds ∧
+    asFtSearch fp (ftSearch .r2 true false 1 ds) = .ok (1, [⟨none, [49], .int 0⟩, ⟨none, [48, 46, 53], .int 0⟩]) ∧
+    asFtSearch fp (ftSearch .r2 true false 1 ds) ≠ .ok (ftSearchExpect true false 1 ds) := by
+  refine ⟨by simp [ftFaithful2], ?_, ?_⟩
+  · simp [asFtSearch, ftSearch, ftDoc2, idx, ftDetect, ftDocs2, ftDocsK]
+  · simp [asFtSearch, ftSearch, ftDoc2, idx, ftDetect, ftDocs2, ftDocsK, ftSearchExpect]
+
+/-- … and a NOCONTENT reply with keys "a", "2" is read as one document "a" with score 2. -/
+theorem ftsearch_resp2_outside_precondition_nocontent :
+    let fp : FP := ⟨fun s => s = [50]⟩
+    let ds : List SDoc := [⟨[97], [], []⟩, ⟨[50], [], []⟩]
+    ¬ ftFaithful2 fp false false ds ∧
+    asFtSearch fp (ftSearch .r2 false false 2 ds) = .ok (2, [⟨none, [97], .str [50]⟩]) := by
+  refine ⟨by simp [ftFaithful2], ?_⟩
+  simp [asFtSearch, ftSearch, ftDoc2, idx, ftDetect, ftDocs2, ftDocsKS]
+
+/-! ## FT.AGGREGATE -/
+
+theorem ftaggregate_both (p : Proto) (total : Int) (rows : List Row) :
+    asFtAggregate (ftAgg p total rows) = .ok (ftAggExpect total rows) :=
+  asFtAggregate_shape p total rows
+
+theorem ftaggregate_cursor_both (p : Proto) (cursor total : Int) (rows : List Row) :
+    asFtAggregateCursor (ftAggCursor p cursor total rows) = .ok (cursor, total, rows.map some) :=
+  asFtAggregateCursor_shape p cursor total rows
+
+/-- a reply without cursor goes through AsFtAggregateCursor with cursor 0 -/
+theorem ftaggregate_cursor_absent (p : Proto) (total : Int) (rows : List Row) :
+    asFtAggregateCursor (ftAgg p total rows) = .ok (0, total, rows.map some) := by
+  have h := asFtAggregate_shape p total rows
+  cases p
+  · cases rows with
+    | nil => simp [asFtAggregateCursor, ftAgg, h, ftAggExpect] at h ⊢; simp [asFtAggregate, ftAgg, idx, tail1, mapR]
+    | cons r rs =>
+      cases rs with
+      | nil =>
+        simp only [ftAggExpect] at h
+        simp [asFtAggregateCursor, ftAgg, idx, isArray, isMap, tInt, tArray, tSet, tMap]
+        simp [ftAgg] at h; simp [h]
+      | cons r2 rs => simp only [ftAggExpect] at h; simp [asFtAggregateCursor, ftAgg] at h ⊢; simp [h]
+  · simp only [ftAggExpect] at h
+    have hna : ¬ isArray (ftAgg .r3 total rows) := not_isArray_mp _
+    simp [asFtAggregateCursor, hna, h]
+
+/-! ## GEOSEARCH -/
+
+/-- every WITHDIST / WITHHASH / WITHCOORD subset, RESP2 (numbers as text) and RESP3 (doubles) -/
+theorem geosearch_both (fp : FP) (p : Proto) (wd wh wc : Bool) (ls : List Loc)
+    (hd : wd = true → ∀ l ∈ ls, l.dist ≠ [] ∧ fp.ok l.dist = true)
+    (hc : wc = true → ∀ l ∈ ls, fp.ok l.lon = true ∧ fp.ok l.lat = true) :
+    asGeosearch fp (geosearch p wd wh wc ls) = .ok (ls.map (geoExpect wd wh wc)) := by
+  simp only [asGeosearch, geosearch, toArray_arr]
+  exact mapR_map_ok _ _ _ _ (fun l hl => geoElem_loc fp p wd wh wc l (fun h => hd h l hl) (fun h => hc h l hl))
+
+/-! ## maps -/
+
+/-- flat RESP2 `[k, v, …]` and RESP3 `%` map: every pair, in order, in the assignment log -/
+theorem strmap_both (p : Proto) (kvs : List (Bytes × Bytes)) : asStrMap (kvReply p kvs) = .ok kvs := by
+  cases p
+  · exact asStrMap_flat kvs
+  · exact asStrMap_map kvs
+
+theorem lookupLast_append_cons {α} (k : Bytes) (v : α) (l1 l2 : Log α) (h : ∀ kv ∈ l2, kv.1 ≠ k) :
+    lookupLast k (l1 ++ (k, v) :: l2) = some v := by
+  have h2 : lookupLast k l2 = none := by
+    induction l2 with
+    | nil => rfl
+    | cons x r ih =>
+      have := ih (fun kv hkv => h kv (by simp [hkv]))
+      have hx := h x (by simp)
+      simp [lookupLast, this, hx]
+  induction l1 with
+  | nil => simp [lookupLast, h2]
+  | cons x r ih => simp [lookupLast, ih]
+
+/-- a repeated field keeps the LAST value (what a Go map holds after the assignments) -/
+theorem asStrMap_last_wins (p : Proto) (k v : Bytes) (l1 l2 : List (Bytes × Bytes)) (h : ∀ kv ∈ l2, kv.1 ≠ k) :
+    ∃ log, asStrMap (kvReply p (l1 ++ (k, v) :: l2)) = .ok log ∧ lookupLast k log = some v :=
+  ⟨_, strmap_both p _, lookupLast_append_cons k v l1 l2 h⟩
+
+/-- and a key that never occurs is absent -/
+theorem lookupLast_absent {α} (k : Bytes) (l : Log α) (h : ∀ kv ∈ l, kv.1 ≠ k) : lookupLast k l = none := by
+  induction l with
+  | nil => rfl
+  | cons x r ih =>
+    have := ih (fun kv hkv => h kv (by simp [hkv]))
+    have hx := h x (by simp)
+    simp [lookupLast, this, hx]
+
+/-- AsMap / ToMap keep the value messages untouched -/
+theorem asMap_pairs (kvs : List (Bytes × Msg)) :
+    toMap (mp (kvs.flatMap fun kv => [blob kv.1, kv.2])) = .ok kvs ∧
+    asMap (arr (kvs.flatMap fun kv => [blob kv.1, kv.2])) = .ok kvs := by
+  have hp : toMapPairs (kvs.flatMap fun kv => [blob kv.1, kv.2]) = .ok kvs := by
+    induction kvs with
+    | nil => rfl
+    | cons kv r ih => simp [toMapPairs, ih]
+  have hl : (kvs.flatMap fun kv => [blob kv.1, kv.2]).length % 2 = 0 := by
+    clear hp
+    induction kvs with
+    | nil => rfl
+    | cons kv r ih => simp only [List.flatMap_cons, List.length_append, List.length_cons, List.length_nil]; omega
+  constructor
+  · simp [toMap, toMapV, hl, hp, -List.length_flatMap]
+  · simp [asMap, mapLike, toMapV, hl, hp, -List.length_flatMap]
+
+/-- AsIntMap on a RESP3 map with integer values -/
+theorem intmap_resp3 (kvs : List (Bytes × Int)) : asIntMap (intMap .r3 kvs) = .ok kvs := by
+  have hp : intPairs (kvs.flatMap fun kv => [blob kv.1, Shapes.int kv.2]) = .ok kvs := by
+    induction kvs with
+    | nil => rfl
+    | cons kv r ih => simp [intPairs, ih]
+  have hl : (kvs.flatMap fun kv => [blob kv.1, Shapes.int kv.2]).length % 2 = 0 := by
+    clear hp
+    induction kvs with
+    | nil => rfl
+    | cons kv r ih => simp only [List.flatMap_cons, List.length_append, List.length_cons, List.length_nil]; omega
+  simp [asIntMap, intMap, mapLike, hl, hp, -List.length_flatMap]
+
+/-- AsIntMap on the RESP2 form (values as decimal text): the text goes through
+    `strconv.ParseInt(s, 0, 64)` (base 0); a server-rendered decimal never starts with a
+    redundant 0, so the value is exact over the whole int64 range. -/
+theorem intmap_resp2 (kvs : List (Bytes × Int))
+    (h : ∀ kv ∈ kvs, -9223372036854775808 ≤ kv.2 ∧ kv.2 < 9223372036854775808) :
+    asIntMap (intMap .r2 kvs) = .ok kvs := by
+  have hp : intPairs (kvs.flatMap fun kv => [blob kv.1, blob (Spec.decI kv.2)]) = .ok kvs := by
+    induction kvs with
+    | nil => rfl
+    | cons kv r ih =>
+      have hr := ih (fun x hx => h x (by simp [hx]))
+      obtain ⟨h1, h2⟩ := h kv (by simp)
+      have hne : Spec.decI kv.2 ≠ [] := by
+        unfold Spec.decI; split
+        · simp
+        · exact Rv.RespL.digits_ne_nil _
+      simp [intPairs, hne, liftNum, parseInt0_decI kv.2 h1 h2, hr]
+  have hl : (kvs.flatMap fun kv => [blob kv.1, blob (Spec.decI kv.2)]).length % 2 = 0 := by
+    clear hp h
+    induction kvs with
+    | nil => rfl
+    | cons kv r ih => simp only [List.flatMap_cons, List.length_append, List.length_cons, List.length_nil]; omega
+  simp [asIntMap, intMap, mapLike, hl, hp, -List.length_flatMap]
+
+/-- base 0 is observable on other texts: "010" is 8 and "0x1f" is 31 for AsIntMap, while AsInt64
+    (base 10) reads 10 and rejects the second -/
+example : parseInt [48, 49, 48] 0 = .ok 8 ∧ parseInt [48, 49, 48] 10 = .ok 10 ∧
+    parseInt [48, 120, 49, 102] 0 = .ok 31 ∧ parseInt [48, 120, 49, 102] 10 = .error .syntax := by
+  refine ⟨?_, ?_, ?_, ?_⟩ <;> rfl
+
+/-! ## integers, booleans, floats, slices -/
+
+/-- AsInt64: a decimal text reply (RESP2) and a RESP3 number give exactly the integer, over the whole
+    int64 range (sign included). -/
+theorem int64_exact (p : Proto) (v : Int) (h1 : -9223372036854775808 ≤ v) (h2 : v < 9223372036854775808) :
+    asInt64 (intReply p v) = .ok v := by
+  cases p
+  · simp [asInt64, intReply, tBlob, tInt, liftNum, parseInt_decI v h1 h2]
+  · simp [asInt64, intReply]
+
+/-- one past either end of the range is a range error, not a wrapped value -/
+theorem int64_overflow_is_error :
+    asInt64 (blob (Spec.decI 9223372036854775808)) = .err (numErrTag "ParseInt" .range) ∧
+    asInt64 (blob (Spec.decI (-9223372036854775809))) = .err (numErrTag "ParseInt" .range) ∧
+    asUint64 (blob (Spec.digits 18446744073709551616)) = .err (numErrTag "ParseUint" .range) := by
+  have d1 : Spec.decI 9223372036854775808 = [57, 50, 50, 51, 51, 55, 50, 48, 51, 54, 56, 53, 52, 55, 55, 53, 56, 48, 56] := by
+    simp [Spec.decI, Spec.digits]
+  have d2 : Spec.decI (-9223372036854775809) = [45, 57, 50, 50, 51, 51, 55, 50, 48, 51, 54, 56, 53, 52, 55, 55, 53, 56, 48, 57] := by
+    simp [Spec.decI, Spec.digits]
+  have d3 : Spec.digits 18446744073709551616 = [49, 56, 52, 52, 54, 55, 52, 52, 48, 55, 51, 55, 48, 57, 53, 53, 49, 54, 49, 54] := by
+    simp [Spec.digits]
+  rw [d1, d2, d3]
+  refine ⟨?_, ?_, ?_⟩ <;> rfl
+
+/-- a text that is not a number is a syntax error -/
+example : asInt64 (blob [49, 120]) = .err (numErrTag "ParseInt" .syntax) := by rfl
+example : asInt64 (blob []) = .err (numErrTag "ParseInt" .syntax) := by rfl
+
+theorem uint64_exact (n : Nat) (h : n < 18446744073709551616) : asUint64 (blob (Spec.digits n)) = .ok n := by
+  simp [asUint64, tBlob, tInt, liftNum, parseUint_digits n h]
+
+/-- booleans: RESP3 `#t/#f`, integer replies (non-zero), and the "OK" status string -/
+theorem bool_conversions (i : Int) (s : Bytes) :
+    asBool (Msg.leafInt tBool 1) = .ok true ∧ asBool (Msg.leafInt tBool 0) = .ok false ∧
+    Acc.toBool (Msg.leafInt tBool 1) = .ok true ∧ Acc.toBool (Msg.leafInt tBool 0) = .ok false ∧
+    asBool (Shapes.int i) = .ok (decide (i ≠ 0)) ∧
+    asBool (blob s) = .ok (decide (s = okBytes)) := by
+  refine ⟨by rfl, by rfl, by rfl, by rfl, ?_, ?_⟩
+  · simp [asBool, isString, errOf, tInt, tBlob, tSimple, tNull, tErr, tBlobErr]
+    by_cases h : i = 0 <;> simp [h]
+  · simp [asBool]; congr
+
+/-- floats: exactly the reply's text is what strconv sees (RESP2 text or RESP3 double) -/
+theorem float_text_handed_to_strconv (fp : FP) (p : Proto) (s : Bytes) (h : fp.ok s = true) :
+    asFloat64 fp (num p s) = .ok (.str s) ∧ toFloat64 fp (dbl s) = .ok (.str s) := by
+  cases p <;> simp [asFloat64, toFloat64, num, utilFloat, h, tBlob, tFloat]
+
+/-- slices keep every element in order -/
+theorem strslice_order (xs : List Bytes) : asStrSlice (strSlice xs) = .ok xs := by
+  simp [asStrSlice, strSlice, List.map_map, Function.comp_def]
+
+theorem intslice_order (p : Proto) (xs : List Int)
+    (h : ∀ v ∈ xs, -9223372036854775808 ≤ v ∧ v < 9223372036854775808) :
+    asIntSlice (intSlice p xs) = .ok xs := by
+  simp only [asIntSlice, intSlice, toArray_arr]
+  have := mapR_map_ok intElem (intReply p) id xs (fun v hv => by
+    obtain ⟨h1, h2⟩ := h v hv
+    cases p
+    · have hne : Spec.decI v ≠ [] := by
+        unfold Spec.decI; split
+        · simp
+        · exact Rv.RespL.digits_ne_nil _
+      simp [intElem, intReply, hne, liftNum, parseInt_decI v h1 h2]
+    · simp [intElem, intReply])
+  simpa using this
+
+theorem toArray_order (xs : List Msg) : toArray (arr xs) = .ok xs := toArray_arr xs
+
 end Rv.C16
